@@ -113,9 +113,6 @@ func enumBytes(e *env) {
 		pythonHashCrossCheck(e, short)
 	}
 	e.each(items, 48, func(items []any) { checkBytes(e, "bytes", items) })
-	if len(items) > 0 {
-		e.r.Sample(map[string]any{"section": "bytes", "input": items[len(items)/3], "functions": "to_hex from_hex to_base64(4 variants) from_base64 to_<9 hashes>"})
-	}
 }
 
 var bytesBodyText string
